@@ -268,6 +268,19 @@ def run_case(case):
                 out.append(("C06:text-rendering-raises:ValueError", "%s: %s raised %r" % (where, how, e)))
         except Exception as e:  # noqa
             out.append(("C06:text-rendering-raises:%s" % type(e).__name__, "%s: %s raised %r" % (where, how, e)))
+    # ---- rendering with a format specification (alignment, width, a number presentation): the specification may
+    #      be refused (TypeError / ValueError, as `object` does), but whatever happens is not the bus outcome escaping
+    for spec in (">12", "<8", "s", "^20s", "3d", "#04x", "08b", ".3", "!"):
+        for how, fn in (("format(r, %r)" % spec, lambda: format(r, spec)),
+                        ("'{:%s}'.format(r)" % spec, lambda: ("{:" + spec + "}").format(r))):
+            try:
+                t = fn()
+                if not isinstance(t, str):
+                    out.append(("C06:str-type:%s" % name, "%s: %s gave %r" % (where, how, type(t))))
+            except faults as e:
+                out.append(("C06:text-rendering-raises:%s" % type(e).__name__, "%s: %s raised %r" % (where, how, e)))
+            except Exception:  # noqa - the specification was refused
+                pass
     # ---- the response hands the frame through: when the caller's frame object changes afterwards (a driver
     #      reusing one frame object, a caller editing raw_value) every view follows it or none does
     if clean and kind != "generic":
